@@ -84,6 +84,14 @@ var c13Tails = map[string][]badTail{
 		{"nested-array", "[[[[\n", true},
 		{"bad-url", "{\"method\": \"GET\", \"host\": \"ex ample\", \"uri\": \"/%zz\"}\n", true},
 	},
+	"generic-json": {
+		{"unterminated-object", "{\"n\": 7, \"s\": \"x\"\n", true},
+		{"unterminated-string", "{\"n\": 7, \"s\": \"x\n", true},
+		{"garbage", "this is not json\n", true},
+		{"other-types", "{\"n\": \"seven\", \"s\": 5}\n", false}, // (well-formed for an ammo type that is a map)
+		{"truncated-after-colon", "{\"n\": 7, \"s\":", true},
+		{"stray-bracket", "]\n", true},
+	},
 	"grpc/json": {
 		{"unterminated-object", "{\"tag\": \"t\", \"call\": \"a.B.C\"\n", true},
 		{"wrong-type", "{\"tag\": 5, \"call\": [], \"payload\": 7}\n", true},
@@ -125,11 +133,11 @@ func grpcLine(i int) string {
 
 func c13Ammo(r *R) {
 	w := r.W
-	formats := []string{"uri", "uripost", "raw", "json", "grpc/json"}
+	formats := []string{"uri", "uripost", "raw", "json", "grpc/json", "generic-json"}
 	format := formats[w.Draw(len(formats))]
-	typ := map[string]string{"uri": "uri", "uripost": "uripost", "raw": "raw", "json": "http/json", "grpc/json": "grpc/json"}[format]
+	typ := map[string]string{"uri": "uri", "uripost": "uripost", "raw": "raw", "json": "http/json", "grpc/json": "grpc/json", "generic-json": "json"}[format]
 	k := w.Draw(5)
-	preload := w.Draw(3) == 0 && format != "grpc/json"
+	preload := w.Draw(3) == 0 && format != "grpc/json" && format != "generic-json"
 	cons := 1 + w.Draw(2)
 	var file []byte
 	var pass []gotReq
@@ -139,6 +147,13 @@ func c13Ammo(r *R) {
 		for i := 0; i < k; i++ {
 			b.WriteString(grpcLine(i))
 			pass = append(pass, gotReq{Tag: fmt.Sprintf("t%d", i)})
+		}
+		file = []byte(b.String())
+	} else if format == "generic-json" {
+		var b strings.Builder
+		for i := 0; i < k; i++ {
+			fmt.Fprintf(&b, "{\"n\": %d, \"s\": \"v%d\"}\n", i, i)
+			pass = append(pass, gotReq{Tag: fmt.Sprintf("v%d", i)})
 		}
 		file = []byte(b.String())
 	} else {
@@ -200,10 +215,21 @@ func c13Ammo(r *R) {
 		file = append(file, bt.Text...)
 		defect, mustErr = bt.Name, bt.MustErr
 	}
+	// passes 1-2, or (one run in four) unlimited passes: a provider that then has nothing to deliver - an empty or
+	// wholly malformed source - must end with an error or at once, it must not read the source over and over for ever;
+	// one that has entries is cancelled by the harness after a few rounds
 	passes := 1 + w.Draw(2)
+	cancelAfter := 0
+	if w.Draw(4) == 0 {
+		passes = 0
+		cancelAfter = 2*max(k, 1) + 1 + w.Draw(4)
+	}
 	plan := simfs.NoPlan()
 	plan.ReadChunk = []int{0, 0, 1, 5, 4096}[w.Draw(5)]
 	conf := map[string]interface{}{"type": typ, "file": "/ammo/ammo.txt", "passes": passes}
+	if format == "generic-json" {
+		conf = map[string]interface{}{"type": "json", "source": map[string]interface{}{"type": "file", "path": "/ammo/ammo.txt"}, "passes": passes}
+	}
 	if preload {
 		conf["preload"] = true
 	}
@@ -212,7 +238,7 @@ func c13Ammo(r *R) {
 		conf["continueonerror"] = true
 		coe = true
 	}
-	r.Sample(map[string]any{"mode": "ammo", "format": format, "defect": defect, "prefix_entries": k, "preload": preload, "passes": passes, "consumers": cons, "read_chunk": plan.ReadChunk, "continue_on_error": coe, "file": clipB(file)})
+	r.Sample(map[string]any{"mode": "ammo", "format": format, "defect": defect, "prefix_entries": k, "preload": preload, "passes": passes, "cancel_after": cancelAfter, "consumers": cons, "read_chunk": plan.ReadChunk, "continue_on_error": coe, "file": clipB(file)})
 	r.Note("ammo/" + format + "/" + defect)
 	if k > 0 {
 		r.NonTrivial()
@@ -220,9 +246,15 @@ func c13Ammo(r *R) {
 	ex := extractHTTP
 	if format == "grpc/json" {
 		ex = extractGRPC
+	} else if format == "generic-json" {
+		ex = extractAny
 	}
-	out := runProvider(r, provRun{Conf: conf, Files: map[string][]byte{"/ammo/ammo.txt": file}, Plans: map[string]simfs.Plan{"/ammo/ammo.txt": plan}, Consumers: cons, Extract: ex, Horizon: 10 * time.Minute}, false)
+	out := runProvider(r, provRun{Conf: conf, Files: map[string][]byte{"/ammo/ammo.txt": file}, Plans: map[string]simfs.Plan{"/ammo/ammo.txt": plan}, Consumers: cons, Extract: ex, Horizon: 10 * time.Minute, CancelAfter: cancelAfter}, false)
 	sig := format + "/" + defect
+	if passes == 0 {
+		sig += "/unlimited-passes"
+		r.Note("ammo/unlimited-passes")
+	}
 	switch out.Sim.Class {
 	case simrt.Crash:
 		r.Fail("CRASH/"+sig+"/"+frameSig(out.Sim.Stack), "%s\n%s\nfile: %s", out.Sim.Detail, out.Sim.Stack, clipB(file))
@@ -238,7 +270,7 @@ func c13Ammo(r *R) {
 	if mustErr && !failed && !coe {
 		r.Fail("not-rejected/"+sig, "the malformed input was accepted without an error: %d items delivered, Run returned nil\nfile: %s", len(out.All), clipB(file))
 	}
-	if k >= 0 && format != "grpc/json" {
+	if k >= 0 && format != "grpc/json" && format != "generic-json" && passes > 0 {
 		// well-formed entries before the malformed part: delivered exactly (streaming) or nothing at all (whole-file paths)
 		got := out.All
 		if len(got) == 0 && failed {
@@ -260,7 +292,7 @@ func c13Ammo(r *R) {
 			}
 		}
 	}
-	if format == "grpc/json" && k > 0 && mustErr && !coe && cons == 1 {
+	if format == "grpc/json" && k > 0 && mustErr && !coe && cons == 1 && passes > 0 {
 		for i := 0; i < len(out.All) && i < k; i++ {
 			if out.All[i].Tag != pass[i].Tag {
 				r.Fail("prefix-altered/"+sig, "entry %d before the malformed part has tag %q, want %q", i, out.All[i].Tag, pass[i].Tag)
